@@ -70,9 +70,9 @@ NumOrd(a, b) ==      \* [B1]: if one operand is xs:float / xs:double the other i
 (* the point of the timeline a date/time value denotes, in seconds + microseconds: "if either argument
    has no timezone, the implicit timezone of the dynamic context is used" (F&O 10.4 op:dateTime-equal;
    a date is the instant its day starts, a time is taken on the reference day of F&O) *)
-TKey(v) == LET z == IF v.tz = NoTZ THEN ImplicitTZ ELSE v.tz
+TKey(v, c) == LET z == IF v.tz = NoTZ THEN TZOf(c) ELSE v.tz
            IN <<v.dn * 86400 + v.s - z * 60, v.us>>
-BinaryOrdered(c) == c \in {"v31", "c31"}    \* op:hexBinary-less-than, op:base64Binary-less-than: F&O 3.1 only
+BinaryOrdered(c) == c \in {"v31", "c31", "u31"}    \* op:hexBinary-less-than, op:base64Binary-less-than: F&O 3.1 only
 B2I(b) == IF b THEN 1 ELSE 0
 EqOnly(b) == IF b THEN "eqq" ELSE "neq"     \* equality is defined, order is not
 
@@ -82,8 +82,8 @@ Ord(a, b, c) ==
   IF IsNumT(a.t) /\ IsNumT(b.t) THEN NumOrd(a, b)
   ELSE IF a.t \in {"str", "uri"} /\ b.t \in {"str", "uri"} THEN LexOrd(a.s, b.s)  \* fn:compare, code points; anyURI promoted [B1]
   ELSE IF a.t = "bool" /\ b.t = "bool" THEN LexOrd(<<B2I(a.b)>>, <<B2I(b.b)>>)   \* op:boolean-less-than: false < true
-  ELSE IF a.t = b.t /\ IsTimeT(a.t) THEN LexOrd(TKey(a), TKey(b))      \* op:dateTime/date/time-equal, -less-than (F&O 10.4)
-  ELSE IF a.t = b.t /\ IsGT(a.t) THEN EqOnly(TKey(a) = TKey(b))        \* op:gYear-equal ...: equality of the starting instants only
+  ELSE IF a.t = b.t /\ IsTimeT(a.t) THEN LexOrd(TKey(a, c), TKey(b, c))      \* op:dateTime/date/time-equal, -less-than (F&O 10.4)
+  ELSE IF a.t = b.t /\ IsGT(a.t) THEN EqOnly(TKey(a, c) = TKey(b, c))        \* op:gYear-equal ...: equality of the starting instants only
   ELSE IF IsDurT(a.t) /\ IsDurT(b.t)
        THEN IF a.t = "ymd" /\ b.t = "ymd" THEN LexOrd(<<a.mo>>, <<b.mo>>)         \* op:yearMonthDuration-less-than
             ELSE IF a.t = "dtd" /\ b.t = "dtd" THEN LexOrd(a.se, b.se)            \* op:dayTimeDuration-less-than (values >= 0 here)
@@ -243,8 +243,10 @@ GenAny(op, L0, R0, c) ==
   IF c = "c10" THEN GenXP1(op, L0, R0, c)
   ELSE IF IsCompat(c) THEN GenCompat(op, L0, R0, c)
   ELSE Gen20(op, Atomize(L0), Atomize(R0), c)
+HasTime(S) == \E i \in 1..Len(S) : IsTimeT(S[i].t) \/ IsGT(S[i].t)
 Result(kind, op, L0, R0) ==
-  [c \in Cfgs |-> IF kind = "val" THEN ValSeq(op, Atomize(L0), Atomize(R0), c) ELSE GenAny(op, L0, R0, c)]
+  [c \in Cfgs |-> IF c = "u31" /\ ~HasTime(L0) /\ ~HasTime(R0) THEN {}          \* not replayed: identical to v31
+                  ELSE IF kind = "val" THEN ValSeq(op, Atomize(L0), Atomize(R0), c) ELSE GenAny(op, L0, R0, c)]
 
 ---------------------------------------------------------------------------
 (* the machine *)
@@ -291,7 +293,7 @@ Spec == Init /\ [][Next]_vars
 ---------------------------------------------------------------------------
 (* LAWS OF THE VALUE COMPARISON TABLE over all atomic values of the universe (state independent:
    evaluated once, as ASSUME).  "Defined" = the operator mapping has an entry. *)
-VCfgs == {"v20", "v31"}
+VCfgs == {"v20", "v31", "u31"}
 Bo(o) == o \in {"TRUE", "FALSE"}
 Involves(a) == IsNumT(a.t) /\ IsNaN(a)
 LawNeIsNotEq ==      \* ne = not eq, errors coincide
@@ -335,8 +337,8 @@ LawTypeError ==      \* XPTY0004 exactly for different families, or for an opera
 LawTimeline ==       \* the order of date/time values is the order of the instants: equal instants written with
   \A a \in AllAtoms, b \in AllAtoms, c \in VCfgs :          \* different timezones are eq, and le both ways implies eq
      (a.t = b.t /\ (IsTimeT(a.t) \/ IsGT(a.t))) =>
-        /\ (Val("eq", a, b, c) = "TRUE") = (TKey(a) = TKey(b))
-        /\ IsTimeT(a.t) => (Val("lt", a, b, c) = "TRUE") = (TKey(a)[1] < TKey(b)[1] \/ (TKey(a)[1] = TKey(b)[1] /\ TKey(a)[2] < TKey(b)[2]))
+        /\ (Val("eq", a, b, c) = "TRUE") = (TKey(a, c) = TKey(b, c))
+        /\ IsTimeT(a.t) => (Val("lt", a, b, c) = "TRUE") = (TKey(a, c)[1] < TKey(b, c)[1] \/ (TKey(a, c)[1] = TKey(b, c)[1] /\ TKey(a, c)[2] < TKey(b, c)[2]))
 LawWhitespace ==     \* a cast of an untypedAtomic ignores surrounding white space; the string comparison does not
   \A u \in WsUntypeds, p \in WsPartners, op \in Ops, c \in {"v20", "v31"} :
      /\ Collapse(u.s) # u.s /\ Collapse(Collapse(u.s)) = Collapse(u.s)
